@@ -60,6 +60,16 @@ def loads_variant(fast_json, json_h, text, how):
             r = fast_json.load(io.StringIO(text))
         elif how == "file-bytes":
             r = fast_json.load(io.BytesIO(text.encode("utf-8")))
+        elif how == "file-noseek":
+            class ReadOnly:  # a stream that can only be read once (a pipe, a socket file)
+                def __init__(self, s):
+                    self._s = s
+
+                def read(self):
+                    s, self._s = self._s, ""
+                    return s
+
+            r = fast_json.load(ReadOnly(text))
         else:
             raise ValueError(how)
         return {"v": json_h.of_py(r)}
